@@ -57,6 +57,12 @@ def run : Runner
     -- an all-zero filter matches nothing, so in every sequential order of MatchTxAndUpdate / Reload calls nothing is
     -- ever inserted into it: any set bit in a replaced all-zero message is a non-linearizable history
     pure { model := "ok", prop := if impl == "ok" then "ok" else "violated:MatchTxAndUpdate not atomic w.r.t. Reload " ++ impl }
+  | "reloadsame", _, impl =>
+    -- Reload(m) while m is the loaded message changes nothing in any sequential order: every insertion survives
+    pure { model := "ok", prop := if impl == "ok" then "ok" else "violated:insertion lost around a Reload of the loaded message " ++ impl }
+  | "concquery", _, impl =>
+    -- queries leave the filter unchanged (C09_query_pure), so every order of them answers true for inserted items
+    pure { model := "ok", prop := if impl == "ok" then "ok" else "violated:inserted item reported absent under concurrent queries " ++ impl }
   | "gcsconc", _, impl => pure { model := "ok", prop := if impl == "ok" then "ok" else "violated:concurrent GCS queries interfere" }
   | _, _, _ => none
 
